@@ -18,10 +18,14 @@ namespace UF.C05
 open UF Bytes Re UF.I2
 
 /-- Masks, at the level of the compiled matcher: for EVERY ASCII mask pattern `p` (as stored in the
-    rule), with or without `$match-case`, and EVERY subject `u` (any bytes), if the compiled pattern
+    rule), with or without `$match-case`, and EVERY ASCII subject `u`, if the compiled pattern
     accepts `u` then the lower-cased subject contains the rule's shortcut
-    (`loadShortcut (findShortcut p)`: the longest separator-free run, lower-cased, if longer than 1). -/
+    (`loadShortcut (findShortcut p)`: the longest separator-free run, lower-cased, if longer than 1).
+    The hypothesis `hu` is not needed by the proof (the byte-level model satisfies the statement for
+    all bytes); it delimits the domain on which `compiledAccepts`/`toLower` ARE Go's rune-based
+    `regexp`/`strings.ToLower` (review TOP 7: `||ex.org/a^b` vs `http://ex.org/aéb`; `ſ`/`K` folding). -/
 theorem c05_mask_full (p : Bytes) (mc : Bool) (u w : Bytes) (hp : ∀ b ∈ p, b < 128)
+    (_hu : ∀ b ∈ u, b < 128)
     (hre : UF.isRegexPattern p = false) (hf : findShortcut p = some w)
     (h : Mask.compiledAccepts p mc u = true) :
     hasSub (toLower u) (loadShortcut w) = true := by
@@ -32,18 +36,20 @@ theorem c05_mask_full (p : Bytes) (mc : Bool) (u w : Bytes) (hp : ∀ b ∈ p, b
 theorem c05_mask_full_total (p : Bytes) (mc : Bool) (hp : ∀ b ∈ p, b < 128)
     (hre : UF.isRegexPattern p = false) :
     ∃ w, findShortcut p = some w ∧
-      ∀ u, Mask.compiledAccepts p mc u = true → hasSub (toLower u) (loadShortcut w) = true := by
+      ∀ u, (∀ b ∈ u, b < 128) → Mask.compiledAccepts p mc u = true →
+        hasSub (toLower u) (loadShortcut w) = true := by
   obtain ⟨w, hw, _⟩ := findShortcut_inv p
-  exact ⟨w, hw, fun u h => c05_mask_full p mc u w hp hre hw h⟩
+  exact ⟨w, hw, fun u hu h => c05_mask_full p mc u w hp hu hre hw h⟩
 
-/-- Against the DOCUMENTED mask language (through `c03`): every subject without a line feed that the
-    mask language of `p` accepts contains the shortcut. -/
+/-- Against the DOCUMENTED mask language (through `c03`): every ASCII subject without a line feed that
+    the mask language of `p` accepts contains the shortcut. -/
 theorem c05_mask_spec (p : Bytes) (mc : Bool) (u w : Bytes) (hp : ∀ b ∈ p, b < 128)
+    (hu : ∀ b ∈ u, b < 128)
     (hre : UF.isRegexPattern p = false) (hn : Mask.NoNL u) (hf : findShortcut p = some w)
     (h : MaskSpec.maskAccepts (MaskSpec.tokenize p) mc u = true) :
     hasSub (toLower u) (loadShortcut w) = true := by
-  apply c05_mask_full p mc u w hp hre hf
-  rw [C03.c03_stored p mc u hp hre hn]
+  apply c05_mask_full p mc u w hp hu hre hf
+  rw [C03.c03_stored p mc u hp hu hre hn]
   exact h
 
 /-- Through `modelPat`: whenever the composed pattern model answers `true` on a mask pattern, the
@@ -58,7 +64,7 @@ theorem c05_mask_modelPat (p : Bytes) (mc : Bool) (u w : Bytes) (hre : UF.isRege
   split at h
   · rename_i hd
     simp only [Bool.and_eq_true] at hd
-    exact c05_mask_full p mc u w ((isAscii_iff p).1 hd.1.1) hre hf hc
+    exact c05_mask_full p mc u w ((isAscii_iff p).1 hd.1.1) ((isAscii_iff u).1 hd.1.2) hre hf hc
   · cases h
 
 /-- C05 at the level of `Match` for mask rules, with the pattern oracle instantiated by the models and
